@@ -103,6 +103,8 @@ fn handle(session: &mut Session, toks: &[&str]) -> Result<String, String> {
         // ---- client implementation: back-off ----
         "BNEW" => { session.client = Some(client::ClientImpl::new(&toks[1..])?); Ok("ok".to_string()) }
         "BWAIT" => Ok(session.client.as_mut().ok_or("no client")?.advance_reconnect_period()),
+        // real-time sleep (the stability comparison in transition_to_state reads Instant::now())
+        "BSLEEP" => { std::thread::sleep(std::time::Duration::from_millis(parse::<u64>(toks.get(1).ok_or("short")?)?)); Ok("ok".to_string()) }
         "BNEXT" => Ok(format!("ok {}", session.client.as_ref().ok_or("no client")?.next_reconnect_period_nanos())),
         // BCONN age_ns|- : one Connecting -> Connected -> PendingReconnect cycle; with an age the
         // connection is marked successful that long ago before it ends
